@@ -73,6 +73,9 @@ int main(int argc, char **argv)
 				if (!strcmp(iface, "der")) rc = sm2_encrypt(&key, msg, msgl, out, &ol);
 				else if (!strcmp(iface, "fixlen")) rc = sm2_encrypt_fixlen(&key, msg, msgl, (int)psize, out, &ol);
 				else if (!strcmp(iface, "do")) { SM2_CIPHERTEXT c; rc = sm2_do_encrypt(&key, msg, msgl, &c); if (rc == 1) { uint8_t *p = out; ol = 0; rc = sm2_ciphertext_to_der(&c, &p, &ol); } }
+				else if (!strcmp(iface, "pre")) {      // the pre-computed nonce table: slot `slot` of sm2_encrypt_pre_compute, used through sm2_do_encrypt_ex
+					SM2_ENC_PRE_COMP pre[SM2_ENC_PRE_COMP_NUM]; SM2_CIPHERTEXT c; long slot = kv_int(&kv, "slot", 0) % SM2_ENC_PRE_COMP_NUM; rc = sm2_encrypt_pre_compute(pre);
+					if (rc == 1) rc = sm2_do_encrypt_ex(&key, &pre[slot], msg, msgl, &c); if (rc == 1) { uint8_t *p = out; ol = 0; rc = sm2_ciphertext_to_der(&c, &p, &ol); } }
 				else { SM2_ENC_CTX c; rc = sm2_encrypt_init(&c);
 					size_t off = 0; for (int i = 0; i <= nch && rc == 1; i++) { size_t n = i < nch ? (size_t)chunks[i] : msgl - off; if (off + n > msgl) n = msgl - off; if (n) rc = sm2_encrypt_update(&c, msg + off, n); off += n; }
 					if (rc == 1) rc = sm2_encrypt_finish(&c, &key, out, &ol); }
